@@ -512,15 +512,16 @@ def conf_accounting(sess, rng, r, nconf, split, order, label):
             return False
         return True
     h = R.H(1, b'conf/' + label.encode())
-    first = ['sign', 'conf'] if order == 0 else ['conf', 'sign']
+    # order 2: ONE request object that carries the hash and asks for the configuration (the service accounts for it as for two requests)
+    first = ['sign', 'conf'] if order == 0 else ['conf', 'sign'] if order == 1 else ['sign+conf']
     rid = None
     for what in first:
-        q = c('async_add 0 0 sign %s 0 S' % h.hex()) if what == 'sign' else c('async_add 0 0 signconf C')
+        q = c('async_add 0 0 sign %s 0 S' % h.hex()) if what == 'sign' else c('async_add 0 0 signconf C') if what == 'conf' else c('async_add 0 0 signwconf %s 0 S' % h.hex())
         if q.rc != 0:
             viol('add-refused', '%s request refused rc=%#x' % (what, q.rc))
             c('async_free 0')
             return
-        if what == 'sign':
+        if what != 'conf':
             rid = int(q['reqid'])
     c('clock +1')
     q = c('async_run 0')
@@ -588,7 +589,7 @@ def worker(job, r):
     if mode == 'conf':
         for nconf in (1, 2, 3, 5):
             for split in (False, True):
-                for order in (0, 1):
+                for order in (0, 1, 2):
                     conf_accounting(sess, rng, r, nconf, split, order, 'c%d-%d-%d-%d' % (seed, nconf, split, order))
     elif mode == 'exhaustive':
         L, shard, nshards = arg
@@ -648,7 +649,7 @@ def run(ctx):
 
 
 # ------------------------------------------------------------------ HTTP transport (request granularity)
-HTTP_ACTIONS = ['add', 'add_unsendable', 'run', 'ok', 'ok_last', 'other_in_body', 'two_in_body', 'dup_body', 'unknown_id', 'bad_mac', 'err_status', 'err_pdu', 'http_500', 'curl_error', 'garbage', 'empty', 'clock']
+HTTP_ACTIONS = ['add', 'add_unsendable', 'multi_add_fail', 'multi_perform_fail', 'run', 'ok', 'ok_last', 'other_in_body', 'two_in_body', 'dup_body', 'unknown_id', 'bad_mac', 'err_status', 'err_pdu', 'http_500', 'curl_error', 'garbage', 'empty', 'clock']
 
 
 class HttpMonitor(Monitor):
@@ -671,6 +672,8 @@ class HttpMonitor(Monitor):
         c('clock %d' % self.now)
         c('async_new 0 0 sign')
         c('async_endpoint 0 set ksi+http://agg.example:80/x anon anon')
+        c('http_fault add=0 perform=0')
+        self.curl_fault_armed = None
         for k, v in (('cache_size', cache), ('snd_timeout', snd_to), ('rcv_timeout', rcv_to), ('con_timeout', con_to), ('max_request_count', maxreq)):
             c('async_opt 0 %s %d' % (k, v))
         sess.http_async.clear()
@@ -717,7 +720,41 @@ class HttpMonitor(Monitor):
         del self.transfers[eid[0]]
         return True
 
+    def mark_unsent(self):
+        for q in self.outstanding():
+            if not q.sent:
+                q.causes.add('the HTTP library refused to start or drive transfers')
+
+    def run(self):
+        if self.curl_fault_armed is None:
+            return Monitor.run(self)
+        self.mark_unsent()
+        ft = self.fault_tokens
+        q = Monitor.run(self)
+        if getattr(self.s, 'http_faults_fired', 0) > self.curl_fault_armed:
+            self.r.count('http_library_faults_fired')
+            # the client gave up this round before it let the transfers make progress: completions that were due are delivered in a later run
+            self.fault_tokens = max(self.fault_tokens, ft)
+            self.curl_fault_armed = getattr(self.s, 'http_faults_fired', 0)
+            st = self.s.cmd('http_fault')
+            if int(st.get('add', 0)) == 0 and int(st.get('perform', 0)) == 0:
+                self.curl_fault_armed = None
+        return q
+
     def do(self, a):
+        if a in ('multi_add_fail', 'multi_perform_fail'):
+            # the HTTP library refuses to start / to drive transfers once: what is still queued for sending may end with an error (and must still be
+            # handed back exactly once); transfers already in flight are not concerned
+            self.trace.append(a)
+            self.s.cmd('http_fault %s=1' % ('add' if a == 'multi_add_fail' else 'perform'))
+            if self.curl_fault_armed is None:
+                self.curl_fault_armed = getattr(self.s, 'http_faults_fired', 0)
+            self.r.count('http_library_faults_armed')
+            return
+        if self.curl_fault_armed is not None and a == 'add':
+            Monitor.do(self, a)
+            self.mark_unsent()
+            return
         if a in ('add', 'add_unsendable', 'run', 'clock'):
             return Monitor.do(self, a)
         self.trace.append(a)
